@@ -3402,7 +3402,7 @@ func (vm *Thread) opLessThanEqualFloat() {
 	right := vm.popGet()
 	left := vm.peek()
 
-	l := left.AsSmallInt()
+	l := left.AsFloat()
 	result, _ := l.LessThanEqualVal(right)
 	vm.replace(result)
 }
